@@ -368,9 +368,13 @@ outer:
 		}
 
 		utfb := make([]byte, len(b)*4) // worst case
-		for l := 1; l < len(b); l++ {
+		for l := 1; l <= len(b); l++ {
 			s.decoder.Reset()
-			nout, nin, _ := s.decoder.Transform(utfb, b[:l], true)
+			// not at EOF: the rest of a multi-byte character may follow
+			nout, nin, e := s.decoder.Transform(utfb, b[:l], false)
+			if e == transform.ErrShortSrc {
+				continue
+			}
 
 			if nout != 0 {
 				r, _ := utf8.DecodeRune(utfb[:nout])
